@@ -69,3 +69,12 @@ package pubsub
 //@     invariant forall i int :: 0 <= i && i <= rangeindex && routes(ps.channels[i], channelName) ==> $chanlast[queue(ps.channels[i])] == boxed(message)
 //@     invariant forall i int :: rangeindex < i && i < len(ps.channels) ==> $chansent[queue(ps.channels[i])] == old($chansent[queue(ps.channels[i])])
 //@     invariant forall q Ref :: !(exists i int :: 0 <= i && i < len(ps.channels) && queue(ps.channels[i]) == q) ==> $chansent[q] == old($chansent[q])
+
+// Sub-command handlers (registered under SubCommands in Commands()): sugardb.handleCommand selects one only for a command of
+// at least two words (its subcmd-arity assertion).
+//@ func handlePubSubChannels props C12
+//@   requires subcommand: len(params.Command) >= 2
+//@ func handlePubSubNumPat props C12
+//@   requires subcommand: len(params.Command) >= 2
+//@ func handlePubSubNumSubs props C12
+//@   requires subcommand: len(params.Command) >= 2
